@@ -35,6 +35,10 @@ package operations
 //@   ensures [ops-free] !mutexHeld[addr(o.diskOperationLock)]
 
 //@ func (*Operations).Move
+//@   property C17
+//@   at call Join#1 assert [new-names-independent-of-spelling] arg_elem[0] == to && arg_elem[1] == trimPrefix(trimPrefix(dbhdr.Name, "/"), trimPrefix(from, "/"))
+//@   property C13
+//@   at call append#2 assert [whole-subtree-moves-with-its-directory] subtreeQueries == old(subtreeQueries) + 1
 //@   property C12
 //@   at call Join#1 assert [newname-formula] arg_elem[0] == to && arg_elem[1] == trimPrefix(trimPrefix(dbhdr.Name, "/"), trimPrefix(from, "/"))
 //@   at call append#2 assert [children-from-subtree-query] subtreeQueries == old(subtreeQueries) + 1
